@@ -122,9 +122,12 @@ def defined_names(code: str):
     return names
 
 
-def embed_py(rng, code: str, k: int, renamed: bool):
+PY_CONTEXTS = ["module", "function", "method", "if", "try", "with", "nested", "for", "for_matching", "while"]
+
+
+def embed_py(rng, code: str, k: int, renamed: bool, ctx: str | None = None):
     """returns (text, copies) where copies = list of (first line of the copy in the file, indent)"""
-    ctx = rng.choice(["module", "module", "module", "function", "method", "if", "try", "with", "nested", "for", "for_matching", "while"])
+    ctx = ctx or rng.choice(["module", "module", "module", "function", "method", "if", "try", "with", "nested", "for", "for_matching", "while"])
     head, indent = {"for": (["for outer_item in OUTER_ITEMS:"], "    "), "while": (["while keep_running():"], "    "),
                     "for_matching": (["for outer_item in OUTER_ITEMS:", "    if not outer_item:", "        continue"], "    "),
                     "module": ([], ""), "function": (["def outer_scope():"], "    "), "method": (["class OuterScope:", "    def run(self):"], "        "),
@@ -154,8 +157,11 @@ def embed_py(rng, code: str, k: int, renamed: bool):
     return "\n".join(lines) + "\n", copies, ctx
 
 
-def embed_ts(rng, code: str, k: int, renamed: bool):
-    ctx = rng.choice(["module", "function", "if", "namespace"])
+TS_CONTEXTS = ["module", "function", "if", "namespace"]
+
+
+def embed_ts(rng, code: str, k: int, renamed: bool, ctx: str | None = None):
+    ctx = ctx or rng.choice(["module", "function", "if", "namespace"])
     head, tail, indent = {"module": ([], [], ""), "function": (["function outerScope(): void {"], ["}"], "  "), "if": (["if (FEATURE_FLAG) {"], ["}"], "  "),
                           "namespace": (["namespace OuterScope {"], ["}"], "  ")}[ctx]
     lines, copies = [], []
@@ -174,6 +180,32 @@ def embed_ts(rng, code: str, k: int, renamed: bool):
         lines += [(indent + ln) if ln.strip() else ln for ln in body.split("\n")]
     lines += tail
     return "\n".join(lines) + "\n", copies, ctx
+
+
+def inlined_variant(code: str):
+    """the body of a documented single-function example used at statement level (its `return X` becomes an assignment):
+    the same detector must report the same constructs when the documented code is not wrapped in its own function"""
+    try:
+        tree = ast.parse(code)
+    except SyntaxError:
+        return None
+    defs = [n for n in tree.body if isinstance(n, ast.FunctionDef)]
+    others = [n for n in tree.body if not isinstance(n, (ast.FunctionDef, ast.Import, ast.ImportFrom))]
+    if len(defs) != 1 or others or any(isinstance(n, (ast.Yield, ast.YieldFrom, ast.Await)) for n in ast.walk(defs[0])):
+        return None
+    fn = defs[0]
+    if any(isinstance(n, ast.Return) for st in fn.body[:-1] for n in ast.walk(st)):
+        return None
+    lines = code.split("\n")
+    head = [ln for n in tree.body if isinstance(n, (ast.Import, ast.ImportFrom)) for ln in lines[n.lineno - 1:n.end_lineno]]
+    body = lines[fn.body[0].lineno - 1:fn.end_lineno]
+    ind = len(body[0]) - len(body[0].lstrip())
+    body = [ln[ind:] if ln.strip() else ln for ln in body]
+    last = fn.body[-1]
+    if isinstance(last, ast.Return):
+        k = last.lineno - fn.body[0].lineno
+        body[k] = body[k].replace("return", "inlined_result =", 1) if last.value is not None else "pass"
+    return "\n".join(head + body)
 
 
 def example_case(args):
@@ -202,6 +234,11 @@ def run(tier: str, seed: int, st: core.ProofStatus) -> core.Result:
                 "findings must equal those of the Lean walk model built from the stand-alone findings; non-trivial = an embedding whose example has findings")
     rng = core.sub_rng(seed, PROP, tier)
     examples = selected_examples()
+    for e in list(examples):
+        if e["lang"] == "py" and e["linter"] in ("performance", "collection-pipeline", "lbyl", "print-statements", "improper-logging"):
+            inl = inlined_variant(e["code"])
+            if inl:
+                examples.append(dict(e, code=inl, kind="derived", doc_rules=[], derived_from=e["line"]))
     n_embed = 12 if tier == "quick" else 40
     jobs = []
     for i, e in enumerate(examples):
@@ -217,6 +254,9 @@ def run(tier: str, seed: int, st: core.ProofStatus) -> core.Result:
             parsable = e["code"].count("{") == e["code"].count("}")
         blocked = "__main__" in e["code"] or "import *" in e["code"] or "from __future__" in e["code"]
         if e["linter"] in EMBEDDABLE and parsable and not blocked and e["lang"] in ("py", "ts"):
+            for ctx in (PY_CONTEXTS if e["lang"] == "py" else TS_CONTEXTS):       # every context once
+                text, copies, ctx = (embed_py if e["lang"] == "py" else embed_ts)(rng, e["code"], 1, False, ctx)
+                embeds.append((text, copies, ctx, 1, False))
             for _ in range(n_embed):
                 k = rng.choice([1, 2, 2, 3])
                 renamed = rng.random() < 0.5
@@ -231,7 +271,7 @@ def run(tier: str, seed: int, st: core.ProofStatus) -> core.Result:
     drv = core.Driver()
     for (i, e, embeds), im in zip(jobs, impls):
         res.evaluations += 1
-        where = f"{e['doc']}:{e['line']}"
+        where = f"{e['doc']}:{e['line']}" + ("(body inlined)" if e["kind"] == "derived" else "")
         res.bump("examples", f"{e['linter']}:{e['kind']}")
         case = {"doc": e["doc"], "doc_line": e["line"], "linter": e["linter"], "kind": e["kind"], "config": e["config"], "code": e["code"]}
         if im["errors"]:
@@ -250,7 +290,7 @@ def run(tier: str, seed: int, st: core.ProofStatus) -> core.Result:
                 missing = [r for r in e["doc_rules"] if r.startswith(PREFIX.get(e["linter"], e["linter"]).split('.')[0]) and not any(v[0] == r for v in sa["vs"])]
                 if missing:
                     problem = f"{where}: documented rule id {missing} not among the reported {sorted({v[0] for v in sa['vs']})}"
-        elif sa["vs"]:
+        elif e["kind"] == "acceptable" and sa["vs"]:
             problem = f"{where}: documented as the refactored / acceptable form but {e['linter']} reports {sa['vs'][:3]}"
         if problem:
             res.findings.setdefault(f"F19:{where}", {"doc": e["doc"], "doc_line": e["line"], "linter": e["linter"], "what": problem, "config": e["config"], "code": e["code"][:1500]})
